@@ -808,6 +808,7 @@ func familyDoc(su *hlib.Suite, r *hlib.Rng, n int) {
 func main() {
 	cfg := hlib.ParseFlags()
 	s := hlib.NewSuite(cfg, "strings")
+	defer s.FinishOnPanic()
 	s.Header = "From QF Require Import Base.Prelude Base.CaseLib Model.Utf8 Model.Json Model.Match Model.Frame Corr.StringsCorr.\nLocal Open Scope N_scope.\n"
 	s.CaseType = "strings_case"
 	s.CheckFn = "check_strings"
